@@ -271,4 +271,18 @@ PROPS = {
             {"name": "c19-sched3", "pkg": HOOKS, "tests": ["TestVerifC19Schedules3"], "checks": {"quick": 3000, "thorough": 100}, "shards": {"quick": 2, "thorough": 12}, "timeout": {"quick": 900, "thorough": 3000}},
         ],
     },
+    "C20": {
+        "level": "exploration", "sim": True,
+        "technique": "model-based property testing (rapid): generated histories of create / spec-changing update / metadata-only update / delete over one or two controller names with valid and invalid specs, driven through the real Metacontroller.Reconcile with real hosted controllers, real informers over the simulator and real http.Clients routed to an in-memory webhook; oracle = model map name -> running spec compared after every reconcile with the hosted set, hook calls per instance URL, informer subscription counts and watch streams",
+        "level_text": "hosted controllers really run (workers, informers, webhook clients); barriers are condition polls with 5 s timeouts; each spec version has its own webhook URL so every hook call is attributable to one instance",
+        "rule": ("rapid-generated histories of 2-8 events over 1-2 names; 19 spec variants: plain, timeout<=0, ETag enabled with both/either/no cache field, ETag disabled, resync period, customize hook, finalize hook, strict decoding, service reference with/without path, "
+                 "unknown parent/child resource, no hooks, empty webhook, parent CRD without status subresource; parents already present in the cluster; non-trivial = the history has a spec-changing update or a delete after a start; distinct = distinct choice sequences"),
+        "jobs": [
+            {"name": "c20-regress", "pkg": COMPOSITE, "tests": ["TestVerifC20Regressions"]},
+            {"name": "c20-composite", "pkg": COMPOSITE, "tests": ["TestVerifC20Composite"],
+             "checks": {"quick": 120, "thorough": 6000}, "shards": {"quick": 8, "thorough": 12}, "timeout": {"quick": 900, "thorough": 3400}},
+            {"name": "c20-decorator", "pkg": DECORATOR, "tests": ["TestVerifC20Decorator"],
+             "checks": {"quick": 84, "thorough": 4000}, "shards": {"quick": 6, "thorough": 8}, "timeout": {"quick": 900, "thorough": 3400}},
+        ],
+    },
 }
